@@ -368,6 +368,13 @@ func Run(j *job.Job, s *job.Sink) {
 				if r.Intn(2) == 0 {
 					ops = append(ops, op{Kind: "process"})
 				}
+				if m.Name != "" && r.Intn(3) == 0 {
+					// a text of two modules, a still newer revision of this module first and a
+					// module that is rejected behind it: the load fails, and a query right
+					// after it finds what the last run left
+					ops = append(ops, op{Kind: "process"}, op{Kind: "multi", Name: "zzmultirev.yang", Text: strings.Replace(v1, "revision 2019-01-01;", "revision 2022-12-12;", 1) + "module zzbadtail {\n  namespace \"urn:zzbadtail\";\n  prefix zbt;\n  frobnicate y;\n}\n"}, op{Kind: "read"})
+					s.Count("histories_with_a_rejected_text_that_starts_with_a_newer_revision", 1)
+				}
 				s.Count("histories_with_a_late_newer_revision", 1)
 			}
 		}
@@ -426,6 +433,12 @@ func Run(j *job.Job, s *job.Sink) {
 			ops = append(ops, op{"badread", "zzbadf.yang", "module zzbadf {\n  namespace \"urn:zzbadf\";\n  prefix zf;\n  leaf x { type string; }\n" + []string{"", "  frobnicate y;\n}\n", "  leaf x { type string; }\n  typedef t { type nosuch; }\n  leaf-list { }\n}\n"}[r.Intn(3)]},
 				op{"load", "zzuser.yang", "module zzuser {\n  namespace \"urn:zzuser\";\n  prefix zu;\n  import zzdep { prefix d; }\n  leaf l { type d:t; }\n}\n"},
 				op{Kind: "process"})
+			if r.Intn(2) == 0 {
+				// a good file of the same directory is read next: from then on the directory is
+				// on the search path, and its other files can be fetched
+				ops = append(ops, op{"readnear", "zznear.yang", "module zznear {\n  namespace \"urn:zznear\";\n  prefix zr;\n  import zzdep { prefix d; }\n  leaf n { type d:t; }\n}\n"}, op{Kind: "process"})
+				s.Count("histories_with_a_good_read_next_to_a_rejected_one", 1)
+			}
 			if r.Intn(2) == 0 {
 				// then the rejected file is repaired and read again, under the same name
 				ops = append(ops, op{"repair", "zzbadf.yang", "module zzbadf {\n  namespace \"urn:zzbadf\";\n  prefix zf;\n  leaf x { type string; }\n  leaf repaired { type string; }\n}\n"}, op{Kind: "process"}, op{Kind: "read"})
@@ -509,6 +522,7 @@ func Run(j *job.Job, s *job.Sink) {
 			var good []op
 			failedLoads := 0
 			lastBadPath := ""
+			lastLive := ""
 			processedBefore := false
 			lastClean := false
 			everProcessed, lastProcClean := false, false
@@ -550,7 +564,7 @@ func Run(j *job.Job, s *job.Sink) {
 						return
 					}
 					good = append(good, op{Kind: "goodread", Name: filepath.Join(dir, o.Name)})
-					lastClean = false
+					lastClean, lastLive = false, ""
 				case "goodreadaug":
 					// a module read from a directory that also holds what it imports: Process
 					// fetches those, and one of them augments another
@@ -567,7 +581,21 @@ func Run(j *job.Job, s *job.Sink) {
 						return
 					}
 					good = append(good, op{Kind: "goodread", Name: filepath.Join(dir, o.Name)})
-					lastClean = false
+					lastClean, lastLive = false, ""
+				case "readnear":
+					// a good file from the directory of the file that was rejected a moment ago;
+					// what it imports lies next to it
+					if lastBadPath == "" {
+						continue
+					}
+					near := filepath.Join(filepath.Dir(lastBadPath), o.Name)
+					os.WriteFile(near, []byte(o.Text), 0o644)
+					if err := ms.Read(near); err != nil {
+						bad("good-text-rejected", err.Error(), nil)
+						return
+					}
+					good = append(good, op{Kind: "goodread", Name: near})
+					lastClean, lastLive = false, ""
 				case "repair":
 					// the file that was rejected a moment ago has been repaired on disk and is
 					// offered again under the same name
@@ -581,7 +609,7 @@ func Run(j *job.Job, s *job.Sink) {
 					}
 					good = append(good, op{Kind: "goodread", Name: lastBadPath})
 					lastBadPath = ""
-					lastClean = false
+					lastClean, lastLive = false, ""
 				case "goodread":
 					dir, err := os.MkdirTemp(".", "goodread")
 					if err != nil {
@@ -595,7 +623,7 @@ func Run(j *job.Job, s *job.Sink) {
 						return
 					}
 					good = append(good, op{Kind: "goodread", Name: filepath.Join(dir, o.Name)})
-					lastClean = false
+					lastClean, lastLive = false, ""
 				case "multi":
 					if err := ms.Parse(o.Text, o.Name); err == nil {
 						bad("generator", "bad text accepted: "+o.Name, nil)
@@ -606,7 +634,16 @@ func Run(j *job.Job, s *job.Sink) {
 					// the acceptable ones that stand before the rejected one, may be in the set
 					// (until fix 2efc706 the earlier ones stayed, which goyang documented).
 					var kept []string
-					for _, n := range []string{"zzma", "zzmb", "zzmc"} {
+					names := []string{"zzma", "zzmb", "zzmc"}
+					if o.Name == "zzmultirev.yang" {
+						names = []string{"zzbadtail"}
+						for k := range ms.Modules {
+							if strings.HasSuffix(k, "@2022-12-12") {
+								names = append(names, k)
+							}
+						}
+					}
+					for _, n := range names {
 						if ms.Modules[n] != nil {
 							kept = append(kept, n)
 						}
@@ -621,12 +658,23 @@ func Run(j *job.Job, s *job.Sink) {
 						return
 					}
 					good = append(good, o)
-					lastClean = false
+					lastClean, lastLive = false, ""
 				case "read":
 					// Trees only "come back" from a clean Process; reads after a failed one
 					// are outside the claim (DESIGN.md C01, blind spots).
 					if lastClean {
+						// nothing was loaded since the last clean run (failed loads at most): the
+						// first query finds the trees as that run left them
+						if lastLive != "" {
+							s.Count("queries_compared_with_the_last_run", 1)
+							if now := dump.Set(ms, nil, true); now != lastLive {
+								a, b := firstDiff(lastLive, now)
+								bad("query-after-failed-load-differs", fmt.Sprintf("the trees a query finds are not those of the last processing run although no load succeeded since: %q became %q", clip(a, 200), clip(b, 200)), nil)
+								return
+							}
+						}
 						readWalk(ms)
+						lastLive = "" // (the walk may have created inputs and outputs on demand)
 					}
 				case "earlyread":
 					// not after a failed run either: only its errors "come back"
@@ -699,6 +747,10 @@ func Run(j *job.Job, s *job.Sink) {
 					lastClean = len(perrs) == 0
 					everProcessed, lastProcClean = true, lastClean
 					live := dump.Set(ms, perrs, true)
+					lastLive = ""
+					if lastClean {
+						lastLive = live
+					}
 					fresh := yang.NewModules()
 					for _, gd := range good {
 						if gd.Kind == "goodread" {
